@@ -169,7 +169,8 @@ def one(args):
         if hit:
             return idx, kind, rel, desc, 'detected', hit
         if und:
-            return idx, kind, rel, desc, 'undecided', und
+            why = [l for pid, rc, lines in checks if rc == 2 for l in lines if l.startswith('UNDECIDED')][:1]
+            return idx, kind, rel, (desc or '') + ('  || ' + why[0][14:230] if why else ''), 'undecided', und
         p = subprocess.run(['/venv/bin/python', '-m', 'pytest', '-q', '-x', '-p', 'no:cacheprovider', '--timeout=900'],
                            cwd=root, capture_output=True, text=True)
         status = 'SURVIVES-BOTH' if p.returncode == 0 else 'tests-only'
